@@ -118,6 +118,11 @@ Definition sstep (o : op) (P : apool) : apool * outcome :=
       | None => (P, Skipped)
       | Some a => a_construct P i (if length (snd a) <=? c then Some (c, snd a) else None)
       end
+  (* the element constructor throws: nothing changes (a full container / a bad position is refused before that) *)
+  | OEmplaceBackCtorThrows i =>
+      a_on P i (fun a => (a, if fst a <=? length (snd a) then Raised else Faulted))
+  | OEmplaceCtorThrows i pos =>
+      a_on P i (fun a => (a, if fst a <=? length (snd a) then Raised else if length (snd a) <? pos then Raised else Faulted))
   end.
 
 Fixpoint srun (ops : list op) (P : apool) : apool * list outcome :=
